@@ -423,7 +423,17 @@ func c10R6(c *Ctx, info *effectsInfo) {
 		}
 		gk := effects.GlobalName(effects.GlobalKey(g))
 		key := "band." + name
-		if ws := writers[gk]; len(ws) > 0 {
+		onceOnly := len(writers[gk]) > 0
+		for _, w := range writers[gk] {
+			if info.A.OnceInit[w.Instr.Parent()] == "" {
+				onceOnly = false
+			}
+		}
+		if onceOnly {
+			// written only by a function literal that runs once under a package-level sync.Once (lazy initialisation; that
+			// every reader is ordered after the Do is R7.globals)
+			r.OK(ruleG, key, c.Prog.Rel(g.Pos()), "never written after init", "written only by a sync.Once literal ("+info.A.OnceInit[writers[gk][0].Instr.Parent()]+")", false)
+		} else if ws := writers[gk]; len(ws) > 0 {
 			r.Bad(ruleG, key, c.Prog.Rel(ws[0].Instr.Pos()), "never written after init", fmt.Sprintf("written by %s: %s", funcKey(ws[0].Instr.Parent()), ws[0].Desc))
 		} else {
 			r.OK(ruleG, key, c.Prog.Rel(g.Pos()), "never written after init", "no store outside package initialisation", false)
@@ -1102,7 +1112,15 @@ func freshBandObligations(c *Ctx, info *effectsInfo, ruleC string) {
 			}
 		}
 		if len(shared) > 0 {
-			r.Bad(ruleC, key, c.Prog.Rel(f.Pos()), "reach(result) ⊆ {Fresh}", "the returned band reaches "+strings.Join(shared, ",")+" (shared between all bands built by this constructor)")
+			// shared, but immutable: package-level tables that only the initialiser (or a function run once under
+			// sync.Once) writes, of types that no function of the package outside the constructors ever stores into —
+			// two band objects that share them share no *mutable* state
+			why := sharedTablesImmutable(c, info, sp, shared)
+			if why == "" {
+				r.OK(ruleC, key, c.Prog.Rel(f.Pos()), "reach(result) ⊆ {Fresh} ∪ immutable tables", "shares only read-only package-level tables: "+strings.Join(shared, ","), true)
+				continue
+			}
+			r.Bad(ruleC, key, c.Prog.Rel(f.Pos()), "reach(result) ⊆ {Fresh}", "the returned band reaches "+strings.Join(shared, ",")+" (shared between all bands built by this constructor; not immutable: "+why+")")
 		} else if !s.RetReach[0].Has("F") {
 			r.Unknown(ruleC, key, c.Prog.Rel(f.Pos()), "reach(result) ⊆ {Fresh}", "constructor returns no allocated object (summary empty)")
 		} else {
@@ -1157,4 +1175,113 @@ func ruleNoLockLeak(c *Ctx, rule string) {
 	c.Run.Rule(rule, "no return leaves a mutex locked (unlock on every path or deferred): a leaked lock blocks every later decoder that takes the same mutex")
 	info := effectsFor(c.Prog)
 	unlockObligations(c, info, newLockCtx(info), rule)
+}
+
+// sharedTablesImmutable: every element of shared is a package-level variable of package band (no parameter, no
+// location) that is written only by the package initialiser or by a sync.Once literal, and no function of the package
+// other than initialisers, once-literals and constructors stores into a map or slice of the types those variables
+// (transitively) hold. Returns "" when so, else the reason.
+func sharedTablesImmutable(c *Ctx, info *effectsInfo, sp *ssa.Package, shared []string) string {
+	writers := globalWriters(info)
+	var held []types.Type
+	for _, e := range shared {
+		if !strings.HasPrefix(e, "G:band.") {
+			return e + " is not a package-level table"
+		}
+		name := strings.TrimPrefix(e, "G:band.")
+		g, ok := sp.Members[name].(*ssa.Global)
+		if !ok {
+			return name + " not found"
+		}
+		for _, w := range writers[effects.GlobalName(effects.GlobalKey(g))] {
+			if info.A.OnceInit[w.Instr.Parent()] == "" {
+				return name + " is written after initialisation by " + funcKey(w.Instr.Parent())
+			}
+		}
+		held = append(held, g.Type().(*types.Pointer).Elem())
+	}
+	// container types reachable from the tables
+	seen := map[string]bool{}
+	var cont []types.Type
+	var walk func(t types.Type, d int)
+	walk = func(t types.Type, d int) {
+		if d > 6 || seen[t.String()] {
+			return
+		}
+		seen[t.String()] = true
+		switch u := t.Underlying().(type) {
+		case *types.Map:
+			cont = append(cont, t)
+			walk(u.Elem(), d+1)
+		case *types.Slice:
+			cont = append(cont, t)
+			walk(u.Elem(), d+1)
+		case *types.Array:
+			walk(u.Elem(), d+1)
+		case *types.Pointer:
+			walk(u.Elem(), d+1)
+		case *types.Struct:
+			for i := 0; i < u.NumFields(); i++ {
+				walk(u.Field(i).Type(), d+1)
+			}
+		}
+	}
+	for _, t := range held {
+		walk(t, 0)
+	}
+	isCont := func(t types.Type) bool {
+		for _, ct := range cont {
+			if types.Identical(ct.Underlying(), t.Underlying()) {
+				return true
+			}
+		}
+		return false
+	}
+	for _, f := range info.Funcs {
+		if f.Pkg != sp || isInitFunc(f) || info.A.OnceInit[f] != "" {
+			continue
+		}
+		top := f
+		for top.Parent() != nil {
+			top = top.Parent()
+		}
+		if c15CtorRe.MatchString(top.Name()) {
+			continue
+		}
+		for _, b := range f.Blocks {
+			for _, ins := range b.Instrs {
+				switch x := ins.(type) {
+				case *ssa.MapUpdate:
+					if _, fresh := x.Map.(*ssa.MakeMap); fresh {
+						continue // filling a map this function has just made (a literal, a builder)
+					}
+					if isCont(x.Map.Type()) {
+						return funcKey(f) + " updates a map of type " + x.Map.Type().String()
+					}
+				case *ssa.Store:
+					addr := x.Addr
+					for {
+						fa, isFA := addr.(*ssa.FieldAddr)
+						if !isFA {
+							break
+						}
+						addr = fa.X // a field of an element: b.up[i].enabled = …
+					}
+					if ia, ok := addr.(*ssa.IndexAddr); ok && isCont(ia.X.Type()) {
+						if _, isSlice := ia.X.Type().Underlying().(*types.Slice); isSlice {
+							// element stores into freshly made local slices are not writes to a table
+							if _, fresh := ia.X.(*ssa.MakeSlice); fresh {
+								continue
+							}
+							if _, fresh := ia.X.(*ssa.Alloc); fresh {
+								continue
+							}
+							return funcKey(f) + " stores into an element of a " + ia.X.Type().String()
+						}
+					}
+				}
+			}
+		}
+	}
+	return ""
 }
